@@ -201,6 +201,14 @@ def prove(prop):
     missing = [n for n in res["theorems"] if n not in res["axioms"]]
     if missing:
         res["broken"] += ["unaudited:" + n for n in missing]
+    # thorough tier: the toolchain's independent re-checker replays the compiled proof module through the kernel
+    if os.environ.get("VERIF_TIER_ACTIVE") == "thorough" and not res["broken"]:
+        with Lock("lake"):
+            rc, out = sh(["lake", "env", "leanchecker", mod], cwd=LEAN)
+        res["leanchecker"] = "ok" if rc == 0 else "failed"
+        if rc != 0:
+            res["log"] += "\nleanchecker failed:\n" + out[-3000:]
+            res["broken"].append("leanchecker")
     res["ok"] = not res["broken"]
     return res
 
@@ -334,6 +342,9 @@ def proof_coverage(res, pr, checker_extra=""):
         theorems=pr["theorems"],
         axioms=pr["axioms"],
     ))
+    if pr.get("leanchecker"):
+        res.coverage["leanchecker"] = pr["leanchecker"]
+        res.coverage["checker_cmd"] += " && lake env leanchecker " + pr["module"]
 
 
 def seed_tier(argv):
